@@ -107,7 +107,55 @@ pub fn pairwise() -> Vec<Point> {
     chosen
 }
 
+/// Requests of both protocols queued on one worker's socket while the whole server process is stopped
+/// (SIGSTOP), so that the worker finds them together when it runs again (SIGCONT): each of them must be
+/// answered. Returns (requests sent, requests left unanswered).
+fn mixed_batch_probe(sp: &ServerProc, n: usize) -> (usize, usize) {
+    use rtref::Version::{Classic, Ietf13};
+    let addr: std::net::SocketAddr = format!("127.0.0.1:{}", sp.port).parse().unwrap();
+    sp.signal(libc::SIGSTOP);
+    let stopped = |pid: u32| std::fs::read_to_string(format!("/proc/{}/stat", pid)).map(|s| s.rsplit(')').next().map(|r| r.trim_start().starts_with('T')).unwrap_or(false)).unwrap_or(false);
+    let t0 = std::time::Instant::now();
+    while !stopped(sp.pid) && t0.elapsed() < Duration::from_millis(500) {
+        std::thread::sleep(Duration::from_millis(2));
+    }
+    let plans: Vec<Vec<rtref::Version>> = (0..(2 * n + 2).min(8)).map(|k| match k % 3 { 0 => vec![Classic, Ietf13], 1 => vec![Ietf13, Classic], _ => vec![Ietf13, Classic, Ietf13] }).collect();
+    let socks: Vec<std::net::UdpSocket> = plans.iter().map(|_| std::net::UdpSocket::bind("127.0.0.1:0").unwrap()).collect();
+    let mut sent = 0;
+    for (si, (s, plan)) in socks.iter().zip(&plans).enumerate() {
+        for (k, v) in plan.iter().enumerate() {
+            let req = rtref::responder::std_request(*v, &nonce(0x3b00_0000 + (si * 16 + k) as u64, v.nonce_len()));
+            if s.send_to(&req, addr).is_ok() {
+                sent += 1;
+            }
+        }
+    }
+    sp.signal(libc::SIGCONT);
+    let mut got = 0;
+    let mut buf = [0u8; 4096];
+    let deadline = std::time::Instant::now() + Duration::from_millis(4000);
+    for (s, plan) in socks.iter().zip(&plans) {
+        let mut mine = 0;
+        while mine < plan.len() {
+            let left = deadline.saturating_duration_since(std::time::Instant::now());
+            if left.is_zero() {
+                break;
+            }
+            s.set_read_timeout(Some(left.max(Duration::from_millis(1)))).unwrap();
+            match s.recv_from(&mut buf) {
+                Ok(_) => mine += 1,
+                Err(e) if e.kind() == std::io::ErrorKind::Interrupted => continue,
+                Err(_) => break,
+            }
+        }
+        got += mine.min(plan.len());
+    }
+    (sent, sent.saturating_sub(got))
+}
+
 pub struct StartObs {
+    /// requests of a mixed classic/IETF group queued on one socket that were left unanswered
+    pub mixed_unanswered: (usize, usize),
     pub exited: Option<(Option<i32>, Option<i32>)>,
     pub blocks: usize,
     pub live_workers: BTreeSet<String>,
@@ -183,12 +231,14 @@ fn observe_start_once(w: &Written, src: Source, n: usize, hport: Option<u16>, fa
     } else {
         (keys, bad)
     };
+    let mixed_unanswered = if sp.try_status().is_none() && !keys.is_empty() { mixed_batch_probe(&sp, n) } else { (0, 0) };
     let exited = sp.try_status();
     let names = sp.thread_names();
     let live_workers: BTreeSet<String> = names.iter().filter(|x| x.starts_with("worker-")).cloned().collect();
     let health = if exited.is_none() { hport.map(|p| health_probe(p, Duration::from_secs(2))) } else { None };
     let se = sp.stderr();
     let obs = StartObs {
+        mixed_unanswered,
         exited,
         blocks,
         live_workers,
@@ -235,6 +285,9 @@ fn judge_start(ctx: &Ctx, o: &StartObs, n: usize, health: bool, stats: bool, det
     } else if o.panicked {
         ctx.violation("panic-output", "stderr", class, detail("panic text on stderr".into()));
     }
+    if o.mixed_unanswered.1 > 0 {
+        ctx.violation("request-unanswered", "mixed-protocol-group", class, detail(format!("classic and IETF requests queued together on workers' sockets (server stopped with SIGSTOP while they were sent, then continued): {} of {} left unanswered by a live server", o.mixed_unanswered.1, o.mixed_unanswered.0)));
+    }
     if o.unauthentic > 0 {
         ctx.violation("unauthentic-reply", "reply", class, detail(format!("{} replies failed verification with fault_percentage 0", o.unauthentic)));
     }
@@ -278,11 +331,11 @@ fn health_history_bs(h: &[HEv], batch_size: u8) -> Result<Option<(String, String
     let mut udp: Vec<(Client, Vec<u8>)> = vec![];
     for (k, e) in h.iter().enumerate() {
         match e {
-            HEv::Connect => match TcpStream::connect_timeout(&haddr, Duration::from_secs(2)) {
+            HEv::Connect => match crate::util::tcp_connect(&haddr, Duration::from_secs(2)) {
                 Ok(s) => conns.push(s),
                 Err(e) => return Ok(Some(("health-connect-refused".into(), format!("event {}: {}", k, e)))),
             },
-            HEv::ConnectAbort => match TcpStream::connect_timeout(&haddr, Duration::from_secs(2)) {
+            HEv::ConnectAbort => match crate::util::tcp_connect(&haddr, Duration::from_secs(2)) {
                 Ok(s) => {
                     use std::os::unix::io::AsRawFd;
                     let lg = libc::linger { l_onoff: 1, l_linger: 0 };
